@@ -494,3 +494,50 @@ def install(m):
     L['Regex::replace_all'] = regex_replace_all
     L['Regex::replace'] = None
     del L['Regex::replace']
+
+
+# --------------------------------------------------------------------------- z3 regular-expression theory
+
+def to_z3re(ast, max_cp=0x2FFFF):
+    """Translate the regex AST into a z3 `re` term over strings (anchors must be at the ends and are
+    handled by the caller).  Character classes are clipped to z3's code-point range."""
+    t = ast[0]
+    if t == 'lit':
+        return z3.Re(z3.StringVal(chr(ast[1])))
+    if t == 'class':
+        rs = [(lo, min(hi, max_cp)) for lo, hi in ast[1] if lo <= max_cp]
+        parts = [z3.Range(z3.StringVal(chr(lo)), z3.StringVal(chr(hi))) for lo, hi in rs]
+        u = parts[0] if len(parts) == 1 else z3.Union(*parts) if parts else z3.Empty(z3.ReSort(z3.StringSort()))
+        if ast[2]:
+            allc = z3.Range(z3.StringVal(chr(0)), z3.StringVal(chr(max_cp)))
+            return z3.Intersect(allc, z3.Complement(u))
+        return u
+    if t == 'cat':
+        items = [to_z3re(x, max_cp) for x in ast[1] if x[0] not in ('bol', 'eol')]
+        if not items:
+            return z3.Re(z3.StringVal(''))
+        return items[0] if len(items) == 1 else z3.Concat(*items)
+    if t == 'alt':
+        return z3.Union(*[to_z3re(x, max_cp) for x in ast[1]])
+    if t == 'group':
+        return to_z3re(ast[1], max_cp)
+    if t == 'rep':
+        _, inner, lo, hi, _g = ast
+        r = to_z3re(inner, max_cp)
+        if lo == 0 and hi is None:
+            return z3.Star(r)
+        if lo == 1 and hi is None:
+            return z3.Plus(r)
+        if lo == 0 and hi == 1:
+            return z3.Option(r)
+        if hi is None:
+            return z3.Concat(z3.Loop(r, lo, lo), z3.Star(r))
+        return z3.Loop(r, lo, hi)
+    raise Unsupported('regex node %r for z3' % (t,))
+
+
+def anchored(ast):
+    """(anchored at start, anchored at end) of a top-level concatenation."""
+    if ast[0] == 'cat' and ast[1]:
+        return ast[1][0][0] == 'bol', ast[1][-1][0] == 'eol'
+    return False, False
